@@ -267,11 +267,20 @@ impl Property for C03 {
             max_attrs: 2,
             max_children: 3,
             on_objects: false,
+            // child elements may carry directives / v-model (they are lowered to calls, which
+            // must not be mistaken for written call children)
+            directives: true,
+            vmodel: true,
+            vmodel_dynamic_arg: false,
             ..SemCfg::default()
         };
         let sc = sem_case(c, cfg, false, 2, json!({"trace": true}));
         let mut case = sc.case;
+        // (directive values are evaluated in the `withDirectives` call, after the children: the
+        // statements do not order them, so with directives each trace segment is compared as a multiset)
+        let has_directive = case.labels.iter().any(|l| l.starts_with("directive") || l == "v-html" || l == "v-text" || l == "v-models" || l.starts_with("vmodel"));
         case.extra["compare_traces"] = json!(true);
+        case.extra["traces_unordered"] = json!(has_directive);
         // classify shapes
         fn walk(n: &Node, labels: &mut Vec<String>, nontrivial: &mut bool) {
             match n {
@@ -474,6 +483,7 @@ impl Property for C05 {
         true
     }
     fn generate(&self, c: &mut Choices) -> Case {
+        let tsx = c.chance(1, 6);
         let cfg = SemCfg {
             vmodel: true,
             vmodels: true,
@@ -482,10 +492,16 @@ impl Property for C05 {
             max_depth: 1,
             on_objects: false,
             component_weight: 5,
+            tsx,
             ..SemCfg::default()
         };
         let sc = sem_case(c, cfg, false, 2, json!({"fireListeners": true}));
         let mut case = sc.case;
+        if tsx {
+            // (evaluated after the harness erased the TS syntax)
+            case.lang = "tsx".into();
+            case.label("lang=tsx");
+        }
         case.nontrivial = case.labels.iter().any(|l| l.starts_with("vmodel-"));
         env_key(&mut case);
         case
